@@ -7,6 +7,7 @@ pub mod collisions;
 pub mod conv;
 pub mod core;
 pub mod deliver;
+pub mod dict;
 pub mod engine;
 pub mod env;
 pub mod faults;
